@@ -121,3 +121,36 @@ def instances(obj, spec, path):
         if not cur:
             return []
     return [o for o, _ in cur]
+
+
+def view_problems(h):
+    """Redundant views of the children that a collection keeps besides `values` / `pairs` (Branch.i0..i9, the
+    call / get accessors): every one must be the very object that fill and toJson use."""
+    out = []
+    for p, n in walk(h):
+        where = "/".join(map(str, p)) or "<root>"
+        if n.name == "Branch":
+            for i, v in enumerate(n.values):
+                if getattr(n, f"i{i}", None) is not v:
+                    out.append(f"{where}: Branch.i{i} is not values[{i}] (i{i} holds entries {getattr(getattr(n, f'i{i}', None), 'entries', None)!r}, values[{i}] holds {v.entries!r})")
+                if n.get(i) is not v or n(i) is not v:
+                    out.append(f"{where}: Branch get({i}) / ({i}) is not values[{i}]")
+        elif n.name == "Index":
+            for i, v in enumerate(n.values):
+                if n.get(i) is not v or n(i) is not v:
+                    out.append(f"{where}: Index get({i}) / ({i}) is not values[{i}]")
+        elif n.name in ("Label", "UntypedLabel"):
+            for k, v in n.pairs.items():
+                if n.get(k) is not v or n(k) is not v:
+                    out.append(f"{where}: {n.name} get({k!r}) / ({k!r}) is not pairs[{k!r}]")
+            if list(n.keys) != list(n.pairs) or any(a is not b for a, b in zip(n.values, n.pairs.values())):
+                out.append(f"{where}: {n.name}.keys / .values disagree with .pairs")
+    return out
+
+
+def require_views(h, what):
+    from .core import Violation  # noqa: PLC0415
+
+    ps = view_problems(h)
+    if ps:
+        raise Violation("stale-view", f"{what}: {ps[0]}" + (f" (+{len(ps) - 1} more)" if len(ps) > 1 else ""), {"view": ps[0].split(": ")[1].split(" ")[0]})
